@@ -935,6 +935,11 @@ impl Interpreter {
         use crate::compiler::Compiler;
         use bytecode_vm::BytecodeVM;
 
+        // A previous run that the host stopped stepping must not leak into this one
+        if self.active_vm.is_some() {
+            self.abandon_active_execution();
+        }
+
         // Set main module path if this is the entry point
         if self.main_module_path.is_none() {
             self.main_module_path = module_path.clone();
@@ -998,6 +1003,11 @@ impl Interpreter {
             {
                 self.finalize_module_exports(path.clone(), module_env);
             }
+        }
+
+        if result.is_err() {
+            // Half-collected exports of a failed run must not leak into a later one
+            self.exports.clear();
         }
 
         result
@@ -1313,7 +1323,15 @@ impl Interpreter {
             }
             VmStepResult::Terminal(vm_result) => {
                 // Terminal state - process and clear active execution state
-                let result = self.process_vm_result(*vm_result)?;
+                let result = match self.process_vm_result(*vm_result) {
+                    Ok(result) => result,
+                    Err(err) => {
+                        // The run died with an uncaught error: leave its module scope
+                        // and forget its bookkeeping, so the next run starts clean.
+                        self.abandon_active_execution();
+                        return Err(err);
+                    }
+                };
 
                 // If not suspended (i.e., actually complete), finalize
                 if matches!(result, crate::StepResult::Complete(_)) {
@@ -1409,6 +1427,21 @@ impl Interpreter {
         }
     }
 
+    /// Drop whatever is left of a run that did not complete (uncaught error, or the host
+    /// stopped stepping it): the VM, the scopes and call-stack entries it was inside of,
+    /// its module bookkeeping and half-collected exports.  Global state the program
+    /// changed deliberately is kept.
+    fn abandon_active_execution(&mut self) {
+        self.active_vm = None;
+        self.active_saved_env = None;
+        self.active_module_env = None;
+        self.active_module_path = None;
+        self.env = self.global_env.cheap_clone();
+        self.env_guards.clear();
+        self.call_stack.clear();
+        self.exports.clear();
+    }
+
     /// Prepare code for step-based execution without running it.
     ///
     /// After calling this, use `step()` to execute one instruction at a time.
@@ -1421,6 +1454,11 @@ impl Interpreter {
     ) -> Result<StepResult, JsError> {
         use crate::compiler::Compiler;
         use bytecode_vm::BytecodeVM;
+
+        // A previous run that the host stopped stepping must not leak into this one
+        if self.active_vm.is_some() {
+            self.abandon_active_execution();
+        }
 
         // Set main module path if this is the entry point
         if self.main_module_path.is_none() {
@@ -1766,6 +1804,11 @@ impl Interpreter {
         self.env = saved_env;
         self.current_module_path = saved_module_path;
 
+        if result.is_err() {
+            // The module body threw: the exports it had registered so far must not end
+            // up in the namespace of the next module that is evaluated.
+            self.exports.clear();
+        }
         result?;
 
         // Create module namespace object from exports
